@@ -1,7 +1,7 @@
 (* C17 — proofs over the models REGENERATED from /repo on every run (gen/Simd_gen.v, gen/Packed_gen.v,
    gen/Guards_gen.v) and over the hand model of the search loops (Model/Packed.v). *)
 From Coq Require Import NArith List Lia ZArith String Bool.
-From Kyro Require Import Model.Strided Model.PackedBase Proofs.StridedProofs gen.Simd_gen gen.Packed_gen.
+From Kyro Require Import Model.Strided Model.PackedBase Proofs.StridedProofs gen.Simd_gen gen.Packed_gen gen.Guards_gen Model.Packed.
 Import ListNotations.
 Open Scope N_scope.
 
@@ -42,3 +42,507 @@ Qed.
 
 Theorem simd_dispatch_ok : Simd_gen.dispatch_features_ok = true.
 Proof. reflexivity. Qed.
+
+(* ------------------------------------------------------------------------------------------ *)
+(* 2. PackedLevel0 / FlatSearchScratch index formulas (over gen/Packed_gen.v)                  *)
+(* ------------------------------------------------------------------------------------------ *)
+
+(* representation invariant of PackedLevel0 with n records *)
+Definition pl0_wf (s : PackedLevel0) (n : N) : Prop :=
+  PackedLevel0_data_len s = n * PackedLevel0_record_words s /\
+  PackedLevel0_vector_offset_words s = 1 + PackedLevel0_cap s /\
+  PackedLevel0_vector_offset_words s + PackedLevel0_dimension s <= PackedLevel0_record_words s.
+
+Lemma rec_le d n rw : d < n -> d * rw + rw <= n * rw.
+Proof. intros H. nia. Qed.
+
+Lemma div_ceil_mul_ge a b : 0 < b -> a <= div_ceil a b * b.
+Proof.
+  intros Hb. unfold div_ceil. pose proof (N.div_mod a b ltac:(lia)) as Hd.
+  pose proof (N.mod_lt a b ltac:(lia)) as Hm.
+  destruct (a mod b =? 0) eqn:E.
+  - apply N.eqb_eq in E. nia.
+  - nia.
+Qed.
+
+Lemma pl0_new_wf cap dim : pl0_wf (PackedLevel0_new cap dim) 0.
+Proof.
+  unfold pl0_wf, PackedLevel0_new. cbn.
+  repeat split; try lia.
+  apply div_ceil_mul_ge. lia.
+Qed.
+
+Lemma pl0_rw_pos s n : pl0_wf s n -> 0 < PackedLevel0_record_words s.
+Proof. intros (_ & H1 & H2). lia. Qed.
+
+Lemma pl0_len_val s n rd nd : pl0_wf s n -> PackedLevel0_len s rd nd = ([], s, Some n).
+Proof.
+  intros H. pose proof (pl0_rw_pos s n H) as Hp. destruct H as (H0 & _).
+  unfold PackedLevel0_len. rewrite H0. rewrite N.div_mul by lia. reflexivity.
+Qed.
+
+Ltac pacc_goal :=
+  repeat match goal with
+  | |- Forall _ (_ ++ _) => apply Forall_app; split
+  | |- Forall _ (_ :: _) => constructor
+  | |- Forall _ [] => constructor
+  end.
+
+Lemma pl0_count_unchecked_ok s n rd nd d : pl0_wf s n -> d < n ->
+  Forall (fun a => pacc_ok a = true) (m_accs (PackedLevel0_count_unchecked s rd nd d)) /\
+  exists c, m_val (PackedLevel0_count_unchecked s rd nd d) = Some c /\ c <= PackedLevel0_cap s.
+Proof.
+  intros H Hd. pose proof (rec_le d n (PackedLevel0_record_words s) Hd) as Hr.
+  destruct H as (H0 & H1 & H2).
+  unfold PackedLevel0_count_unchecked, m_pre, m_accs, m_val. cbn. split.
+  - pacc_goal. unfold pacc_ok. cbn. apply N.leb_le. lia.
+  - eexists. split; [reflexivity | lia].
+Qed.
+
+Lemma pl0_neighbor_unchecked_ok s n rd nd d idx : pl0_wf s n -> d < n -> idx < PackedLevel0_cap s ->
+  Forall (fun a => pacc_ok a = true) (m_accs (PackedLevel0_neighbor_unchecked s rd nd d idx)).
+Proof.
+  intros H Hd Hi. pose proof (rec_le d n (PackedLevel0_record_words s) Hd) as Hr.
+  destruct H as (H0 & H1 & H2).
+  unfold PackedLevel0_neighbor_unchecked, m_pre, m_accs. cbn.
+  pacc_goal. unfold pacc_ok. cbn. apply N.leb_le. lia.
+Qed.
+
+Lemma pl0_vector_at_unchecked_ok s n rd nd d : pl0_wf s n -> d < n ->
+  Forall (fun a => pacc_ok a = true) (m_accs (PackedLevel0_vector_at_unchecked s rd nd d)) /\
+  In (mk_pacc true arr_PackedLevel0_data
+        (d * PackedLevel0_record_words s + PackedLevel0_vector_offset_words s) (PackedLevel0_dimension s) (PackedLevel0_data_len s))
+     (m_accs (PackedLevel0_vector_at_unchecked s rd nd d)).
+Proof.
+  intros H Hd. pose proof (rec_le d n (PackedLevel0_record_words s) Hd) as Hr.
+  destruct H as (H0 & H1 & H2).
+  unfold PackedLevel0_vector_at_unchecked, m_pre, m_accs. cbn. split.
+  - pacc_goal; unfold pacc_ok; cbn; apply N.leb_le; lia.
+  - cbn. auto.
+Qed.
+
+Lemma pl0_record_ptr_ok s n rd nd d : pl0_wf s n -> d < n ->
+  Forall (fun a => pacc_ok a = true) (m_accs (PackedLevel0_record_ptr s rd nd d)).
+Proof.
+  intros H Hd. pose proof (rec_le d n (PackedLevel0_record_words s) Hd) as Hr.
+  destruct H as (H0 & H1 & H2).
+  unfold PackedLevel0_record_ptr, m_pre, m_accs. cbn.
+  pacc_goal; unfold pacc_ok; cbn; apply N.leb_le; lia.
+Qed.
+
+(* append: the invariant is preserved, every (checked) write of push_node is in bounds, so it does not panic,
+   and the new node gets id n *)
+Lemma pl0_push_node_ok s n rd nd e : pl0_wf s n ->
+  let r := PackedLevel0_push_node s rd nd e in
+  pl0_wf (m_state r) (n + 1) /\ Forall (fun a => pacc_ok a = true) (m_accs r) /\ m_val r = Some (as_u32 n).
+Proof.
+  intros H. pose proof (pl0_rw_pos s n H) as Hp. pose proof H as (H0 & H1 & H2).
+  unfold PackedLevel0_push_node. rewrite (pl0_len_val s n rd nd H).
+  cbv zeta. unfold m_pre at 1. cbn [app opt_or].
+  set (s' := set_PackedLevel0_data_len s _).
+  assert (Hl : PackedLevel0_data_len s' = (n + 1) * PackedLevel0_record_words s) by (subst s'; cbn; lia).
+  assert (Hc : PackedLevel0_cap s' = PackedLevel0_cap s) by reflexivity.
+  assert (Hv : PackedLevel0_vector_offset_words s' = PackedLevel0_vector_offset_words s) by reflexivity.
+  assert (Hdm : PackedLevel0_dimension s' = PackedLevel0_dimension s) by reflexivity.
+  assert (Hrw : PackedLevel0_record_words s' = PackedLevel0_record_words s) by reflexivity.
+  rewrite !Hl, !Hc, !Hv, !Hdm.
+  assert (E1 : (PackedLevel0_data_len s <? (n + 1) * PackedLevel0_record_words s) = true) by (apply N.ltb_lt; lia).
+  rewrite E1.
+  assert (E2 : ((PackedLevel0_data_len s + 1 <=? PackedLevel0_data_len s + 1 + PackedLevel0_cap s) &&
+                (PackedLevel0_data_len s + 1 + PackedLevel0_cap s <=? (n + 1) * PackedLevel0_record_words s)) = true).
+  { apply andb_true_intro. split; apply N.leb_le; lia. }
+  rewrite E2.
+  assert (E3 : ((PackedLevel0_data_len s + PackedLevel0_vector_offset_words s <=? PackedLevel0_data_len s + PackedLevel0_vector_offset_words s + PackedLevel0_dimension s) &&
+                (PackedLevel0_data_len s + PackedLevel0_vector_offset_words s + PackedLevel0_dimension s <=? (n + 1) * PackedLevel0_record_words s)) = true).
+  { apply andb_true_intro. split; apply N.leb_le; lia. }
+  rewrite E3.
+  unfold m_pre, m_state, m_accs, m_val. cbn [fst snd app].
+  split; [|split].
+  - unfold pl0_wf. rewrite Hl, Hc, Hv, Hdm, Hrw. repeat split; lia.
+  - pacc_goal; unfold pacc_ok; cbn [pa_off pa_width pa_alen]; apply N.leb_le; lia.
+  - reflexivity.
+Qed.
+
+(* checked twin of vector_at_unchecked: bounds-checked slice, then an UNCHECKED from_raw_parts of
+   `dimension` words — safe under the invariant for EVERY dense_id (out of range => None, no access) *)
+Lemma pl0_vector_at_safe s n rd nd d : pl0_wf s n ->
+  Forall (fun a => pacc_safe a = true) (m_accs (PackedLevel0_vector_at s rd nd d)).
+Proof.
+  intros H. pose proof (pl0_rw_pos s n H) as Hp. pose proof H as (H0 & H1 & H2).
+  unfold PackedLevel0_vector_at, PackedLevel0_node_start. rewrite (pl0_len_val s n rd nd H).
+  cbv zeta. unfold m_pre at 2. cbn [app opt_or].
+  destruct (n <=? d) eqn:E.
+  - cbn. constructor.
+  - apply N.leb_gt in E. pose proof (rec_le d n (PackedLevel0_record_words s) E) as Hr.
+    unfold sat_mul.
+    set (st := N.min _ _).
+    assert (Hst : st <= d * PackedLevel0_record_words s) by (subst st; lia).
+    unfold m_pre at 1. cbn [app].
+    destruct ((st + PackedLevel0_vector_offset_words s <=? PackedLevel0_data_len s) && (PackedLevel0_data_len s <=? PackedLevel0_data_len s)) eqn:E2.
+    + unfold m_pre, m_accs. cbn [fst snd app].
+      pacc_goal; unfold pacc_safe, pacc_ok; cbn [pa_unchecked pa_off pa_width pa_alen negb orb]; try reflexivity.
+      apply N.leb_le. lia.
+    + unfold m_pre, m_accs. cbn [fst snd app]. pacc_goal. reflexivity.
+Qed.
+
+(* ---- visited bitset ---- *)
+Lemma shiftr6 x : N.shiftr x 6 = x / 64.
+Proof. rewrite N.shiftr_div_pow2. reflexivity. Qed.
+
+Lemma prepare_len s rd nd nc t :
+  (sat_add nc 63) / 64 <= FlatSearchScratch_visited_bits_len (m_state (FlatSearchScratch_prepare s rd nd nc t)).
+Proof.
+  unfold FlatSearchScratch_prepare. cbv zeta.
+  destruct (FlatSearchScratch_visited_bits_len s <? sat_add nc 63 / 64) eqn:E; unfold m_state; cbn [fst snd].
+  - cbn. lia.
+  - apply N.ltb_ge in E. exact E.
+Qed.
+
+Lemma words_lt M nc d L : 4294967359 <= M -> (N.min (nc + 63) M) / 64 <= L -> d < nc -> d < 4294967296 -> d / 64 < L.
+Proof. intros HM Hl Hd Hu. lia. Qed.
+Lemma usize_big : 4294967359 <= usize_max.
+Proof. apply N.leb_le. vm_compute. reflexivity. Qed.
+
+Lemma mark_unchecked_ok s rd nd nc d :
+  (sat_add nc 63) / 64 <= FlatSearchScratch_visited_bits_len s -> d < nc -> d < 4294967296 ->
+  Forall (fun a => pacc_ok a = true) (m_accs (FlatSearchScratch_mark_if_unvisited_unchecked s rd nd d)) /\
+  m_state (FlatSearchScratch_mark_if_unvisited_unchecked s rd nd d) = s.
+Proof.
+  intros Hl Hd Hu.
+  pose proof (words_lt usize_max nc d _ usize_big Hl Hd Hu) as Hw.
+  unfold FlatSearchScratch_mark_if_unvisited_unchecked. cbv zeta.
+  rewrite shiftr6.
+  destruct (negb _); unfold m_pre, m_accs, m_state; cbn [fst snd app]; split; try reflexivity;
+    pacc_goal; unfold pacc_ok; cbn [pa_off pa_width pa_alen]; apply N.leb_le; lia.
+Qed.
+
+(* the checked mark never touches memory out of range, whatever the id *)
+Lemma mark_visited_safe s rd nd d :
+  Forall (fun a => pacc_safe a = true) (m_accs (FlatSearchScratch_mark_visited s rd nd d)) /\
+  m_state (FlatSearchScratch_mark_visited s rd nd d) = s.
+Proof.
+  unfold FlatSearchScratch_mark_visited. cbv zeta.
+  repeat match goal with |- context [if ?c then _ else _] => destruct c end;
+    unfold m_pre, m_accs, m_state; cbn [fst snd app]; split; try reflexivity;
+    pacc_goal; reflexivity.
+Qed.
+
+(* ------------------------------------------------------------------------------------------ *)
+(* 3. the search loops over an arbitrary array: only guarded ids reach an unchecked accessor    *)
+(* ------------------------------------------------------------------------------------------ *)
+Definition okl (w : world) (l : list N) : Prop := Forall (fun x => x < w_nc w) l.
+Definition evs_ok (w : world) (l : list ev) : Prop := Forall (fun e => ev_okb w e = true) l.
+
+Lemma evs_app w a b : evs_ok w a -> evs_ok w b -> evs_ok w (a ++ b).
+Proof. intros. apply Forall_app. auto. Qed.
+Lemma evs_cons w e l : ev_okb w e = true -> evs_ok w l -> evs_ok w (e :: l).
+Proof. intros. constructor; auto. Qed.
+Lemma evs_nil w : evs_ok w []. Proof. constructor. Qed.
+#[local] Hint Resolve evs_app evs_cons evs_nil : ev.
+
+(* the count read through the generated accessor is clamped by its `.min(self.cap)` *)
+Lemma count_val_le w id : count_val w id <= PackedLevel0_cap (w_l0 w).
+Proof. unfold count_val, PackedLevel0_count_unchecked, m_pre, m_val. cbn. lia. Qed.
+
+Lemma prefetch_dense_ok w id : evs_ok w (prefetch_dense w id).
+Proof.
+  unfold prefetch_dense. destruct (w_nc w <=? id) eqn:E; [constructor|].
+  apply N.leb_gt in E. repeat constructor. cbn. apply N.ltb_lt. exact E.
+Qed.
+
+Lemma nb_ok w cand idx : cand < w_nc w -> idx < PackedLevel0_cap (w_l0 w) -> ev_okb w (ENeighbor cand idx) = true.
+Proof. intros. cbn. apply andb_true_intro. split; apply N.ltb_lt; assumption. Qed.
+
+Lemma prefetch_level0_ok w o t cand count idx :
+  cand < w_nc w -> count <= PackedLevel0_cap (w_l0 w) -> evs_ok w (prefetch_level0 w o t cand count idx).
+Proof.
+  intros Hc Hn. unfold prefetch_level0. apply evs_app.
+  - destruct (idx + 1 <? count) eqn:E; [|constructor]. apply N.ltb_lt in E.
+    apply evs_cons; [apply nb_ok; lia | apply prefetch_dense_ok].
+  - destruct (o_hop2 o t idx && (idx + 2 <? count)) eqn:E; [|constructor].
+    apply andb_prop in E. destruct E as [_ E]. apply N.ltb_lt in E.
+    apply evs_cons; [apply nb_ok; lia | apply prefetch_dense_ok].
+Qed.
+
+Lemma prefetch_list_ok w o t nbrs idx : evs_ok w (prefetch_list w o t nbrs idx).
+Proof.
+  unfold prefetch_list. apply evs_app.
+  - destruct (nth_error nbrs (idx + 1)); [apply prefetch_dense_ok | constructor].
+  - destruct (o_hop2 o t (N.of_nat idx)); [|constructor].
+    destruct (nth_error nbrs (idx + 2)); [apply prefetch_dense_ok | constructor].
+Qed.
+
+Lemma visit_ok w o t nbr visited cands pushed :
+  okl w cands -> okl w pushed ->
+  let '(e, v, c, p) := visit w o t nbr visited cands pushed in
+  evs_ok w e /\ okl w c /\ okl w p.
+Proof.
+  intros Hc Hp. unfold visit.
+  destruct (w_nc w <=? nbr) eqn:E; [repeat split; auto; constructor|].
+  apply N.leb_gt in E.
+  assert (Hm : ev_okb w (EMark nbr) = true) by (cbn; apply N.ltb_lt; exact E).
+  assert (Hv : ev_okb w (EVector nbr) = true) by (cbn; apply N.ltb_lt; exact E).
+  destruct (memN nbr visited); [repeat split; auto; repeat constructor; auto|].
+  destruct (o_push o t nbr); repeat split; auto; try (repeat constructor; auto; fail);
+    constructor; auto.
+Qed.
+
+Lemma l0_nbrs_ok w o t cand count : cand < w_nc w -> count <= PackedLevel0_cap (w_l0 w) ->
+  forall idxs visited cands pushed, Forall (fun i => i < count) idxs -> okl w cands -> okl w pushed ->
+  let '(e, v, c, p) := l0_nbrs w o t cand count idxs visited cands pushed in
+  evs_ok w e /\ okl w c /\ okl w p.
+Proof.
+  intros Hcand Hcount. induction idxs as [|idx rest IH]; intros visited cands pushed Hi Hc Hp; cbn [l0_nbrs].
+  - repeat split; auto. constructor.
+  - inversion Hi as [|? ? Hidx Hrest]; subst.
+    destruct (o_istop o t idx); [repeat split; auto; constructor|].
+    pose proof (visit_ok w o t (neighbor_val w cand idx) visited cands pushed Hc Hp) as Hv.
+    destruct (visit w o t (neighbor_val w cand idx) visited cands pushed) as [[[e1 v1] c1] p1].
+    destruct Hv as (He1 & Hc1 & Hp1).
+    specialize (IH v1 c1 p1 Hrest Hc1 Hp1).
+    destruct (l0_nbrs w o t cand count rest v1 c1 p1) as [[[e2 v2] c2] p2].
+    destruct IH as (He2 & Hc2 & Hp2). repeat split; auto.
+    apply evs_app; [apply prefetch_level0_ok; auto|].
+    apply evs_cons; [apply nb_ok; lia|]. apply evs_app; auto.
+Qed.
+
+Lemma range_lt n : Forall (fun i => i < n) (range n).
+Proof.
+  unfold range. apply Forall_forall. intros x Hx. apply in_map_iff in Hx.
+  destruct Hx as (k & <- & Hk). apply in_seq in Hk. lia.
+Qed.
+
+Lemma pick_in k l : l <> [] -> In (pick k l) l.
+Proof.
+  intros Hl. unfold pick. destruct (Nat.lt_ge_cases k (List.length l)) as [H|H].
+  - apply nth_In. exact H.
+  - rewrite nth_overflow by exact H. destruct l; [congruence | left; reflexivity].
+Qed.
+
+Lemma pick_ok w k l : 0 < w_nc w -> okl w l -> pick k l < w_nc w.
+Proof.
+  intros H0 Hl. destruct l as [|a l'].
+  - unfold pick. cbn. destruct k; exact H0.
+  - unfold okl in Hl. rewrite Forall_forall in Hl. apply Hl. apply pick_in. discriminate.
+Qed.
+
+Lemma remove_nth_ok w k : forall l, okl w l -> okl w (remove_nth k l).
+Proof.
+  induction k as [|k IH]; intros l Hl; destruct l as [|a l']; cbn; auto.
+  - inversion Hl; auto.
+  - inversion Hl; subst. constructor; auto. apply IH. auto.
+Qed.
+
+Lemma l0_loop_ok w o : 0 < w_nc w -> forall fuel visited cands pushed, okl w cands -> okl w pushed ->
+  let '(e, p) := l0_loop w o fuel visited cands pushed in evs_ok w e /\ okl w p.
+Proof.
+  intros H0. induction fuel as [|f IH]; intros visited cands pushed Hc Hp; cbn [l0_loop].
+  - split; auto. constructor.
+  - destruct cands as [|c0 cs]; [split; auto; constructor|].
+    set (cands := c0 :: cs) in *.
+    destruct (o_stop o (S f)); [split; auto; constructor|].
+    assert (Hcand : pick (o_pick o (S f) cands) cands < w_nc w) by (apply pick_ok; auto).
+    pose proof (l0_nbrs_ok w o (S f) _ _ Hcand (count_val_le w _) (range (count_val w (pick (o_pick o (S f) cands) cands)))
+                  visited (remove_nth (o_pick o (S f) cands) cands) pushed (range_lt _) (remove_nth_ok w _ _ Hc) Hp) as H1.
+    destruct (l0_nbrs w o (S f) _ _ _ visited (remove_nth (o_pick o (S f) cands) cands) pushed) as [[[e1 v1] c1] p1].
+    destruct H1 as (He1 & Hc1 & Hp1).
+    specialize (IH v1 c1 p1 Hc1 Hp1). destruct (l0_loop w o f v1 c1 p1) as [e2 p2].
+    destruct IH as (He2 & Hp2). split; auto.
+    apply evs_cons; [cbn; apply N.ltb_lt; exact Hcand | apply evs_app; auto].
+Qed.
+
+Lemma search_layer0_ok w o fuel entry : 0 < w_nc w -> entry < w_nc w ->
+  evs_ok w (fst (search_layer0 w o fuel entry)) /\ okl w (snd (search_layer0 w o fuel entry)).
+Proof.
+  intros H0 He. unfold search_layer0.
+  assert (Hl : okl w [entry]) by (constructor; auto).
+  pose proof (l0_loop_ok w o H0 fuel [entry] [entry] [entry] Hl Hl) as H.
+  destruct (l0_loop w o fuel [entry] [entry] [entry]). exact H.
+Qed.
+
+Lemma up_nbrs_ok w o t all : forall nbrs idx visited cands pushed, okl w cands -> okl w pushed ->
+  let '(e, v, c, p) := up_nbrs w o t all idx nbrs visited cands pushed in
+  evs_ok w e /\ okl w c /\ okl w p.
+Proof.
+  induction nbrs as [|nbr rest IH]; intros idx visited cands pushed Hc Hp; cbn [up_nbrs].
+  - repeat split; auto. constructor.
+  - pose proof (visit_ok w o t nbr visited cands pushed Hc Hp) as Hv.
+    destruct (visit w o t nbr visited cands pushed) as [[[e1 v1] c1] p1]. destruct Hv as (He1 & Hc1 & Hp1).
+    specialize (IH (S idx) v1 c1 p1 Hc1 Hp1).
+    destruct (up_nbrs w o t all (S idx) rest v1 c1 p1) as [[[e2 v2] c2] p2]. destruct IH as (He2 & Hc2 & Hp2).
+    repeat split; auto. apply evs_app; [apply prefetch_list_ok|]. apply evs_app; auto.
+Qed.
+
+Lemma up_loop_ok w o : 0 < w_nc w -> forall fuel visited cands pushed, okl w cands -> okl w pushed ->
+  let '(e, p) := up_loop w o fuel visited cands pushed in evs_ok w e /\ okl w p.
+Proof.
+  intros H0. induction fuel as [|f IH]; intros visited cands pushed Hc Hp; cbn [up_loop].
+  - split; auto. constructor.
+  - destruct cands as [|c0 cs]; [split; auto; constructor|].
+    set (cands := c0 :: cs) in *.
+    destruct (o_stop o (S f)); [split; auto; constructor|].
+    pose proof (up_nbrs_ok w o (S f) (o_nbrs o (S f) (pick (o_pick o (S f) cands) cands)) (o_nbrs o (S f) (pick (o_pick o (S f) cands) cands)) 0%nat
+                  visited (remove_nth (o_pick o (S f) cands) cands) pushed (remove_nth_ok w _ _ Hc) Hp) as H1.
+    destruct (up_nbrs w o (S f) _ 0%nat _ visited (remove_nth (o_pick o (S f) cands) cands) pushed) as [[[e1 v1] c1] p1].
+    destruct H1 as (He1 & Hc1 & Hp1).
+    specialize (IH v1 c1 p1 Hc1 Hp1). destruct (up_loop w o f v1 c1 p1) as [e2 p2].
+    destruct IH as (He2 & Hp2). split; auto. apply evs_app; auto.
+Qed.
+
+Lemma search_at_layer_ok w o fuel entry is0 : 0 < w_nc w -> entry < w_nc w ->
+  evs_ok w (fst (search_at_layer w o fuel entry is0)) /\ okl w (snd (search_at_layer w o fuel entry is0)).
+Proof.
+  intros H0 He. unfold search_at_layer. destruct is0; [apply search_layer0_ok; auto|].
+  assert (Hl : okl w [entry]) by (constructor; auto).
+  pose proof (up_loop_ok w o H0 fuel [entry] [entry] [entry] Hl Hl) as H.
+  destruct (up_loop w o fuel [entry] [entry] [entry]). exact H.
+Qed.
+
+Lemma greedy_nbrs_ok w o t all : forall nbrs idx current, current < w_nc w ->
+  let '(e, c) := greedy_nbrs w o t all idx nbrs current in evs_ok w e /\ c < w_nc w.
+Proof.
+  induction nbrs as [|nbr rest IH]; intros idx current Hc; cbn [greedy_nbrs].
+  - split; auto. constructor.
+  - destruct (o_istop o t (N.of_nat idx)); [split; auto; constructor|].
+    destruct (w_nc w <=? nbr) eqn:E.
+    + specialize (IH (S idx) current Hc). destruct (greedy_nbrs w o t all (S idx) rest current) as [e c].
+      destruct IH. split; auto. apply evs_app; [apply prefetch_list_ok | auto].
+    + apply N.leb_gt in E.
+      assert (Hc' : (if o_better o t nbr then nbr else current) < w_nc w) by (destruct (o_better o t nbr); auto).
+      specialize (IH (S idx) _ Hc'). destruct (greedy_nbrs w o t all (S idx) rest _) as [e c].
+      destruct IH. split; auto. apply evs_app; [apply prefetch_list_ok|].
+      apply evs_cons; auto. cbn. apply N.ltb_lt. exact E.
+Qed.
+
+Lemma greedy_ok w o : forall fuel current, current < w_nc w ->
+  let '(e, c) := greedy w o fuel current in evs_ok w e /\ c < w_nc w.
+Proof.
+  induction fuel as [|f IH]; intros current Hc; cbn [greedy].
+  - split; auto. constructor.
+  - destruct (o_stop o (S f)); [split; auto; constructor|].
+    pose proof (greedy_nbrs_ok w o (S f) (o_nbrs o (S f) current) (o_nbrs o (S f) current) 0%nat current Hc) as H1.
+    destruct (greedy_nbrs w o (S f) _ 0%nat _ current) as [e1 c1]. destruct H1 as (He1 & Hc1).
+    specialize (IH c1 Hc1). destruct (greedy w o f c1) as [e2 c2]. destruct IH. split; auto. apply evs_app; auto.
+Qed.
+
+Lemma clamp_ok w e0 : 0 < w_nc w -> clamp_entry w e0 < w_nc w.
+Proof. intros H0. unfold clamp_entry. destruct (w_nc w <=? e0) eqn:E; [exact H0 | apply N.leb_gt in E; exact E]. Qed.
+
+Lemma descend_ok w o fuel : forall layers entry, entry < w_nc w ->
+  let '(e, c) := descend w o fuel layers entry in evs_ok w e /\ c < w_nc w.
+Proof.
+  induction layers as [|l IH]; intros entry He; cbn [descend].
+  - split; auto. constructor.
+  - pose proof (greedy_ok w o fuel entry He) as H1. destruct (greedy w o fuel entry) as [e1 c1]. destruct H1 as (He1 & Hc1).
+    specialize (IH c1 Hc1). destruct (descend w o fuel l c1) as [e2 c2]. destruct IH. split; auto. apply evs_app; auto.
+Qed.
+
+Theorem search_fp32_guarded w o fuel layers e0 : 0 < w_nc w -> evs_ok w (search_fp32 w o fuel layers e0).
+Proof.
+  intros H0. unfold search_fp32.
+  pose proof (descend_ok w o fuel layers _ (clamp_ok w e0 H0)) as H1.
+  destruct (descend w o fuel layers (clamp_entry w e0)) as [e1 c1]. destruct H1 as (He1 & Hc1).
+  apply evs_app; auto. apply search_layer0_ok; auto.
+Qed.
+
+Lemma insert_layers_ok w o fuel : 0 < w_nc w -> forall layers entry, entry < w_nc w -> evs_ok w (insert_layers w o fuel layers entry).
+Proof.
+  intros H0. induction layers as [|is0 rest IH]; intros entry He; cbn [insert_layers].
+  - constructor.
+  - pose proof (search_at_layer_ok w o fuel entry is0 H0 He) as H1.
+    destruct (search_at_layer w o fuel entry is0) as [e1 pushed]. cbn [fst snd] in H1. destruct H1 as (He1 & Hp).
+    apply evs_app; auto. apply IH. apply pick_ok; auto.
+Qed.
+
+Theorem insert_search_guarded w o fuel upper layers e0 : 0 < w_nc w -> evs_ok w (insert_search w o fuel upper layers e0).
+Proof.
+  intros H0. unfold insert_search.
+  pose proof (descend_ok w o fuel upper _ (clamp_ok w e0 H0)) as H1.
+  destruct (descend w o fuel upper (clamp_entry w e0)) as [e1 c1]. destruct H1 as (He1 & Hc1).
+  apply evs_app; auto. apply insert_layers_ok; auto.
+Qed.
+
+Lemma sd_inner_ok w o t cand : cand < w_nc w -> forall sel, okl w sel -> evs_ok w (sd_inner o t cand sel).
+Proof.
+  intros Hc. induction sel as [|ch rest IH]; intros Hs; cbn [sd_inner]; [constructor|].
+  inversion Hs; subst.
+  apply evs_cons; [cbn; apply N.ltb_lt; auto|]. apply evs_cons; [cbn; apply N.ltb_lt; auto|].
+  destruct (o_istop o t ch); [constructor | auto].
+Qed.
+
+Lemma sd_loop_ok w o t : forall cands sel, okl w sel ->
+  let '(e, s) := sd_loop w o t cands sel in evs_ok w e /\ okl w s.
+Proof.
+  induction cands as [|cand rest IH]; intros sel Hs; cbn [sd_loop].
+  - split; auto. constructor.
+  - destruct (w_nc w <=? cand) eqn:E; [apply IH; auto|]. apply N.leb_gt in E.
+    destruct (memN cand sel); [apply IH; auto|].
+    assert (Hs' : okl w (if o_push o t cand then sel ++ [cand] else sel)).
+    { destruct (o_push o t cand); auto. apply Forall_app. split; auto. }
+    specialize (IH _ Hs'). destruct (sd_loop w o t rest _) as [e2 s2]. destruct IH. split; auto.
+    apply evs_app; auto. apply sd_inner_ok; auto.
+Qed.
+
+Theorem select_diverse_guarded w o t cands : evs_ok w (fst (select_diverse w o t cands)).
+Proof.
+  unfold select_diverse. pose proof (sd_loop_ok w o t cands [] (Forall_nil _)) as H.
+  destruct (sd_loop w o t cands []). apply H.
+Qed.
+
+Lemma mp_score_ok w target : target < w_nc w -> forall current,
+  let '(e, kept) := mp_score w target current in evs_ok w e /\ okl w kept.
+Proof.
+  intros Ht. induction current as [|nbr rest IH]; cbn [mp_score].
+  - split; constructor.
+  - destruct (mp_score w target rest) as [e kept]. destruct IH as (He & Hk).
+    destruct ((nbr =? target) || (w_nc w <=? nbr)) eqn:E; [split; auto|].
+    apply orb_false_elim in E. destruct E as [_ E]. apply N.leb_gt in E.
+    split; [|constructor; auto].
+    apply evs_cons; [cbn; apply N.ltb_lt; auto|]. apply evs_cons; [cbn; apply N.ltb_lt; auto|]. auto.
+Qed.
+
+Theorem merge_prune_guarded w o t target incoming current : evs_ok w (merge_prune w o t target incoming current).
+Proof.
+  unfold merge_prune.
+  destruct ((w_nc w <=? target) || (w_nc w <=? incoming) || (target =? incoming)) eqn:E; [constructor|].
+  apply orb_false_elim in E. destruct E as [E _]. apply orb_false_elim in E. destruct E as [E1 E2].
+  apply N.leb_gt in E1. apply N.leb_gt in E2.
+  destruct (o_stop o t); [constructor|].
+  pose proof (mp_score_ok w target E1 current) as H. destruct (mp_score w target current) as [e1 scored]. destruct H as (He1 & Hs).
+  apply evs_app; auto. apply evs_app.
+  - destruct (o_push o t incoming); [|constructor].
+    apply evs_cons; [cbn; apply N.ltb_lt; auto|]. apply evs_cons; [cbn; apply N.ltb_lt; auto|]. constructor.
+  - apply select_diverse_guarded.
+Qed.
+
+(* ---- from guarded events to in-bounds accesses of the regenerated accessors ---- *)
+Lemma ev_accs_ok w sc n e :
+  pl0_wf (w_l0 w) n -> w_nc w <= n -> w_nc w <= 4294967296 ->
+  (sat_add (w_nc w) 63) / 64 <= FlatSearchScratch_visited_bits_len sc ->
+  ev_okb w e = true -> Forall (fun a => pacc_ok a = true) (ev_accs w sc e).
+Proof.
+  intros Hwf Hn Hu Hsc He. destruct e as [id | id idx | id | id | id]; cbn [ev_okb] in He; cbn [ev_accs].
+  - apply N.ltb_lt in He. apply (pl0_count_unchecked_ok _ n); auto. lia.
+  - apply andb_prop in He. destruct He as [H1 H2]. apply N.ltb_lt in H1. apply N.ltb_lt in H2.
+    apply (pl0_neighbor_unchecked_ok _ n); auto. lia.
+  - apply N.ltb_lt in He. apply (pl0_vector_at_unchecked_ok _ n); auto. lia.
+  - apply N.ltb_lt in He. apply (mark_unchecked_ok sc _ _ (w_nc w)); auto. lia.
+  - apply N.ltb_lt in He. apply (pl0_record_ptr_ok _ n); auto. lia.
+Qed.
+
+Theorem guarded_trace_in_bounds w sc n evs :
+  pl0_wf (w_l0 w) n -> w_nc w <= n -> w_nc w <= 4294967296 ->
+  (sat_add (w_nc w) 63) / 64 <= FlatSearchScratch_visited_bits_len sc ->
+  evs_ok w evs -> Forall (fun a => pacc_ok a = true) (flat_map (ev_accs w sc) evs).
+Proof.
+  intros Hwf Hn Hu Hsc He. induction evs as [|e rest IH]; cbn [flat_map]; [constructor|].
+  inversion He; subst. apply Forall_app. split; [apply (ev_accs_ok w sc n); auto | apply IH; auto].
+Qed.
+
+(* the tie of the hand model to the source: every unsafe call site found in ann_backend.rs has a guard of a
+   recognised kind, the sites are exactly the ones the model covers, and the two structural facts hold *)
+Theorem guards_complete :
+  Guards_gen.all_sites_guarded = true /\
+  covers Guards_gen.site_pairs model_sites = true /\ covers model_sites Guards_gen.site_pairs = true /\
+  Guards_gen.len_invariant_structure_ok = true /\ Guards_gen.dimension_guards_ok = true.
+Proof. repeat split; vm_compute; reflexivity. Qed.
